@@ -4,7 +4,11 @@ package websocket
 
 import (
 	"crypto/rand"
+	"encoding/hex"
+	"fmt"
 	"io"
+	"os"
+	"sync"
 )
 
 // Verification hooks (build tag "verif"). They add observation and scheduling
@@ -34,4 +38,34 @@ func verifGate(c *Conn, point string) {
 	if f := VerifGateFn; f != nil {
 		f(c, point)
 	}
+}
+
+// Wire tap: when the environment variable VERIF_WIRE names a file, every frame
+// write that succeeded is appended to it (one line per write: connection id,
+// role, whether permessage-deflate is negotiated, hex bytes). Called while the
+// write lock is held, so the per-connection order is the order on the wire.
+var (
+	verifWireOnce sync.Once
+	verifWireMu   sync.Mutex
+	verifWireFile *os.File
+	verifWireIDs  = map[*Conn]int{} // keeps the connections alive: ids are never reused
+)
+
+func verifWire(c *Conn, buf0, buf1 []byte) {
+	verifWireOnce.Do(func() {
+		if name := os.Getenv("VERIF_WIRE"); name != "" {
+			verifWireFile, _ = os.OpenFile(name, os.O_CREATE|os.O_WRONLY|os.O_APPEND, 0o644)
+		}
+	})
+	if verifWireFile == nil {
+		return
+	}
+	verifWireMu.Lock()
+	id, ok := verifWireIDs[c]
+	if !ok {
+		id = len(verifWireIDs) + 1
+		verifWireIDs[c] = id
+	}
+	fmt.Fprintf(verifWireFile, "%d %t %t %s%s\n", id, c.isServer, c.newCompressionWriter != nil, hex.EncodeToString(buf0), hex.EncodeToString(buf1))
+	verifWireMu.Unlock()
 }
